@@ -9,7 +9,7 @@ R07.3 declared count: (thorough) the number of emission sites, weighted by loop 
 R07.4 buffer contract: the strided consumer refuses to write past the end
 """
 from . import flow
-from .facts import walk, kids, parse_path, callee, strip_generics
+from .facts import pat_binds, walk, kids, parse_path, callee, strip_generics
 
 ACC_PREFIX = ('wire', 'wires', 'limbs', 'const_input')
 CONST_PREFIX = ('WIRE_', 'START_')
@@ -607,6 +607,40 @@ def run(F, ck, tier):
                   'LOOP BOUND DISAGREEMENT in %s: %s iterates over ranges of length [%s] where eval_unfiltered has [%s]: the evaluators emit different constraints (a range taken from the wrong field, e.g. bits instead of num_copies)' %
                   (g['short'], nm, ', '.join(b), ', '.join(ref)), '%s:%d' % ((g['fns'].get(nm) or g['packed']).file, (g['fns'].get(nm) or g['packed']).line))
     ck.floor('R07.6', 'evaluator pairs with compared loop bounds', nb, 20)
+    # R07.9 inside a loop over copies / operations, per-copy wire accessors receive the loop variable
+    ck.rule('R07.9', 'inside a `for copy in 0..n` loop of a gate, every call of a wire accessor that has a parameter of that name passes an expression of the loop variable: a literal copy index there checks (or fills) the wires of ONE copy n times and leaves the other copies unconstrained')
+    n79 = 0
+    for fn_ in sorted(F.fns.values(), key=lambda f: f.qual):
+        if fn_.crate != 'plonky2' or fn_.body is None or '/gates/' not in fn_.file:
+            continue
+        for lp in walk(fn_.body):
+            if lp.get('k') != 'For':
+                continue
+            lv = [b for b in pat_binds(lp['p'])]
+            if len(lv) != 1 or len(lv[0].get('n', '')) < 3:
+                continue
+            vname, vid = lv[0]['n'], lv[0]['id']
+            for c_ in walk(lp['b']):
+                if c_.get('k') not in ('MCall', 'Call'):
+                    continue
+                tgt = F.fns.get(c_.get('d') if c_.get('k') == 'MCall' else (callee(c_) or ''))
+                if tgt is None or tgt.crate != 'plonky2' or not tgt.name.startswith(('wire_', 'wires_')):
+                    continue
+                pn_ = [b['n'] for p in tgt.params for b in pat_binds(p)]
+                args_ = ([c_['r']] if c_.get('k') == 'MCall' else []) + list(c_.get('a', []))
+                if vname not in pn_ or len(args_) != len(pn_):
+                    continue
+                n79 += 1
+                a_ = args_[pn_.index(vname)]
+                uses = any(y.get('k') == 'Local' and y.get('id') == vid for y in walk(a_))
+                if not uses:
+                    # another loop variable of the same name nested inside (shadowing) is fine
+                    uses = any(y.get('k') == 'Local' and y.get('n') == vname for y in walk(a_))
+                if not uses:
+                    ck.ob('R07.9', 'per-copy:%s:%s' % (fn_.qual, tgt.name), False, 'PER-COPY ACCESSOR WITH A FIXED COPY: in %s, inside the loop over `%s`, %s is called with a `%s` argument that does not depend on the loop variable: '
+                          'the same wires are visited in every iteration and the corresponding wires of the other copies are never constrained / filled' % (fn_.qual, vname, tgt.name, vname), c_.get('s'))
+    ck.ob('R07.9', 'per-copy:all', True, '%d per-copy accessor calls inside copy loops' % n79)
+    ck.floor('R07.9', 'per-copy accessor calls inside loops over the same-named variable', n79, 12)
     # R07.8 every indexed wire the generator WRITES over a range is constrained over the same range by each evaluator
     ck.rule('R07.8', 'an indexed wire accessor that the generator writes inside a range loop (wire_output(i) for i in 0..12) is used by every evaluator inside a loop of the same length: a constraint loop narrowed to a sub-range leaves the remaining generated wires unpinned')
     nrng = 0
